@@ -32,6 +32,9 @@ TRUSTED_BASE = BASE_TRUSTED + [
 RULE = ('kernel cases: seeded random PSF images (both paddings), paraxial data of both conjugates; system cases: '
         'cut-off/working F-number: both conjugates with object and/or image space in air or an immersion medium (n 1.2..1.7; '
         'fixed relays + lensgen.immerse), magnification from an independent y-nu matrix trace; '
+        'several fields at once: FFTMTF and GeometricMTF built with 2, 3 and 4 fields (on-axis + comatic off-axis; stigmatic and '
+        'spherical mirrors, a clipped mirror, generated lenses), each curve against |DFT| of its own FFTPSF / the intensity-weighted '
+        'line spread of independently traced rays / the single-field object / the closed form; '
         'pupil sampling 4..8 (+11,21 for the mask), grid = sampling+0..5 (all parities), OPD from 0 to tens of waves '
         '(defocus/spherical/random), intensities uniform / apodised / partly zero, plus real lenses (generated, '
         'paraboloid, finite conjugates) traced by optiland; mask consistency for every sampling 16..64 (16..256 thorough); '
@@ -128,7 +131,9 @@ def real_psf_from_data(n, grid, opd, inten, wavelength=0.55):
         return None, f'{type(e).__name__}: {str(e)[:120]}'
 
 
-def paraboloid(fno=5.0, clip=None, defocus=0.0, wavelength=0.55):
+def paraboloid(fno=5.0, clip=None, defocus=0.0, wavelength=0.55, fields=(0.0,), conic=-1.0):
+    """concave mirror, stop at the mirror: stigmatic on axis for conic=-1 (spherical aberration otherwise), comatic off axis;
+    fields = y field angles in degrees"""
     from optiland.optic import Optic
     from optiland.physical_apertures import RadialAperture
     o = Optic()
@@ -136,11 +141,12 @@ def paraboloid(fno=5.0, clip=None, defocus=0.0, wavelength=0.55):
     kw = {}
     if clip:
         kw['aperture'] = RadialAperture(r_max=clip, r_min=0.0)
-    o.add_surface(index=1, radius=-200.0, conic=-1.0, thickness=-100.0 + defocus, material='mirror', is_stop=True, **kw)
+    o.add_surface(index=1, radius=-200.0, conic=conic, thickness=-100.0 + defocus, material='mirror', is_stop=True, **kw)
     o.add_surface(index=2)
     o.set_aperture('EPD', 100.0 / fno)
     o.set_field_type('angle')
-    o.add_field(y=0.0)
+    for f in fields:
+        o.add_field(y=f)
     o.add_wavelength(wavelength, is_primary=True)
     return o
 
@@ -689,6 +695,227 @@ def check_cutoff(ctx):
                                            'fft_max_freq', 'geo_max_freq')} for m in (meta[:1] + [m for m in meta if 'immersed' in m['class']][:1])]}
 
 
+# ----------------------------------------------------------------------------------------------
+# several fields at once: every curve must belong to ITS OWN field
+# ----------------------------------------------------------------------------------------------
+def direct_mtf(psf, grid):
+    """|DFT| of one PSF image by an explicit DFT matrix product (no np.fft), zero frequency moved to index N//2 by an explicit
+    index rotation, sliced and normalised as the property states it: (tangential, sagittal)"""
+    N = psf.shape[0]
+    k = np.arange(N)
+    W = np.exp(-2j * np.pi * np.outer(k, k) / N)
+    D = np.abs(W @ psf @ W.T)
+    idx = (np.arange(N) - N // 2) % N
+    D = D[np.ix_(idx, idx)]
+    c = grid // 2
+    t, sg = D[c:, c], D[c, c:]
+    return t / t.max(), sg / sg.max()
+
+
+def line_spread_reference(o, field, lam, num_rays, freq):
+    """|sum_i I_i exp(-2 pi i v c_i)| / sum_i I_i for c = y (tangential) and x (sagittal) of rays traced HERE for this one field
+    (not taken from the analysis object); also the unweighted version and the histogram bin width of each coordinate"""
+    rays = o.trace(field[0], field[1], lam, num_rays, 'uniform')
+    y, x, inten = np.array(rays.y, dtype=float), np.array(rays.x, dtype=float), np.array(rays.i, dtype=float)
+    if not (np.all(np.isfinite(y)) and np.all(np.isfinite(x)) and np.all(np.isfinite(inten))) or inten.sum() <= 0:
+        return None
+    out = {'zero_intensity_rays': int((inten == 0).sum()), 'rays': int(len(y)), 'uniform_intensity': bool(np.all(inten == inten[0]))}
+    for nm, c in (('tangential', y), ('sagittal', x)):
+        E = np.exp(-2j * np.pi * np.outer(freq, c))
+        rng_ = float(c.max() - c.min()) or 1.0
+        out[nm] = {'weighted': np.abs((E * inten).sum(axis=1)) / inten.sum(), 'unweighted': np.abs(E.mean(axis=1)), 'range': rng_}
+    return out
+
+
+def oracle_geo_fields(o, fields, lam, name, num_rays=20, num_points=512, scale=True):
+    """GeometricMTF built for all `fields` at once: each curve against the modulus of the Fourier transform of the line spread of
+    independently traced rays of its own field (rigorous binning tolerance pi*v*binwidth) and against the single-field object"""
+    from optiland.mtf import GeometricMTF
+    out = []
+    gm = GeometricMTF(o, fields=list(fields), wavelength=lam, num_rays=num_rays, num_points=num_points, scale=scale)
+    sf = np.asarray(gm.diff_limited_mtf, dtype=float) if scale else np.ones(num_points)
+    for k, f in enumerate(fields):
+        ref = line_spread_reference(o, f, lam, num_rays, gm.freq)
+        if ref is None:
+            continue
+        if len(fields) > 1:
+            single = GeometricMTF(o, fields=[f], wavelength=lam, num_rays=num_rays, num_points=num_points, scale=scale)
+        for ax, nm in enumerate(('tangential', 'sagittal')):
+            cv = np.asarray(gm.mtf[k][ax], dtype=float)
+            if not np.all(np.isfinite(cv)):
+                continue
+            if len(fields) > 1:
+                d1 = float(np.max(np.abs(cv - np.asarray(single.mtf[0][ax], dtype=float))))
+                if d1 > 1e-12:
+                    out.append({'kind': 'multi-field-geo-mtf', 'site': 'GeometricMTF', 'lens': name, 'fields': [list(map(float, x)) for x in fields],
+                                'field_index': k, 'curve': nm, 'max_diff_vs_single_field_object': d1})
+                    continue
+            tol = (np.pi * gm.freq * ref[nm]['range'] / (num_points + 1)) * sf + 1e-9
+            dev = np.abs(cv - ref[nm]['weighted'] * sf) - tol
+            j = int(np.argmax(dev))
+            if dev[j] > 0:
+                devu = np.abs(cv - ref[nm]['unweighted'] * sf) - tol
+                out.append({'kind': 'geo-mtf-vs-line-spread', 'site': 'GeometricMTF._compute_field_data', 'lens': name,
+                            'fields': [list(map(float, x)) for x in fields], 'field_index': k, 'field': list(map(float, f)), 'curve': nm,
+                            'scale': bool(scale), 'num_rays': num_rays, 'num_points': num_points, 'frequency': float(gm.freq[j]),
+                            'observed': float(cv[j]), 'expected': float(ref[nm]['weighted'][j] * sf[j]), 'tolerance': float(tol[j]),
+                            'zero_intensity_rays': ref['zero_intensity_rays'], 'rays': ref['rays'],
+                            'uniform_intensity': ref['uniform_intensity'],
+                            'equals_unweighted_line_spread': bool(np.max(devu) <= 0)})
+    return out
+
+
+def oracle_fft_fields(o, fields, lam, n, grid, name, stigmatic_first=False):
+    """FFTMTF built for all `fields` at once: psf[k] against FFTPSF of field k, mtf[k] against the direct |DFT| of THAT PSF,
+    against the single-field FFTMTF, and (stigmatic field) against the closed form"""
+    from optiland.psf import FFTPSF
+    from optiland.mtf import FFTMTF
+    out = []
+    m = FFTMTF(o, fields=list(fields), wavelength=lam, num_rays=n, grid_size=grid)
+    own = []
+    for k, f in enumerate(fields):
+        p = FFTPSF(o, f, lam, num_rays=n, grid_size=grid)
+        if not np.all(np.isfinite(p.psf)) or p.psf.shape != (grid, grid) or p.psf.max() <= 0:
+            own.append(None)
+            continue
+        own.append(direct_mtf(p.psf, grid))
+        fl_ = [list(map(float, x)) for x in fields]
+        if not np.array_equal(np.asarray(m.psf[k]), p.psf):
+            out.append({'kind': 'multi-field-psf', 'site': 'FFTMTF.__init__', 'lens': name, 'fields': fl_, 'field_index': k,
+                        'max_diff_vs_FFTPSF': float(np.max(np.abs(np.asarray(m.psf[k]) - p.psf)))})
+            continue
+        s1 = FFTMTF(o, fields=[f], wavelength=lam, num_rays=n, grid_size=grid)
+        for ax, nm in enumerate(('tangential', 'sagittal')):
+            cv = np.asarray(m.mtf[k][ax], dtype=float)
+            d_own = float(np.max(np.abs(cv - own[k][ax])))
+            d_single = float(np.max(np.abs(cv - np.asarray(s1.mtf[0][ax], dtype=float))))
+            if d_own > 1e-9 or d_single > 1e-12:
+                out.append({'kind': 'multi-field-mtf', 'site': 'FFTMTF._generate_mtf_data', 'lens': name, 'fields': fl_, 'field_index': k,
+                            'curve': nm, 'num_rays': n, 'grid_size': grid, 'max_diff_vs_transform_of_own_psf': d_own,
+                            'max_diff_vs_single_field_object': d_single})
+                break
+        if stigmatic_first and k == 0:
+            cv = np.asarray(m.mtf[0][0], dtype=float)
+            nu = np.clip(np.arange(len(cv)) / n, 0, 1)
+            phi = np.arccos(nu)
+            err = float(np.max(np.abs(cv - 2 / np.pi * (phi - np.cos(phi) * np.sin(phi)))))
+            if err > 1.0 / n and not any(w_['kind'] == 'multi-field-mtf' and w_['field_index'] == 0 for w_ in out):
+                out.append({'kind': 'mtf-vs-closed-form', 'site': 'FFTMTF', 'lens': name, 'fields': fl_, 'field_index': 0, 'num_rays': n,
+                            'grid_size': grid, 'max_abs_error': err, 'allowed': 1.0 / n})
+    # which field's transform was reported instead (diagnostic only)
+    for w_ in out:
+        if w_['kind'] == 'multi-field-mtf':
+            ax = 0 if w_['curve'] == 'tangential' else 1
+            cv = np.asarray(m.mtf[w_['field_index']][ax], dtype=float)
+            w_['equals_transform_of_field'] = [j for j, t in enumerate(own) if t is not None and np.max(np.abs(cv - t[ax])) <= 1e-9]
+    return out
+
+
+def multifield_lenses(ctx):
+    """(name, optic, fields, stigmatic_first): mirrors with on-axis + comatic off-axis fields (2, 3, 4 fields; stigmatic paraboloid,
+    spherical mirror, clipped spherical mirror) and generated refracting lenses given 2..4 fields"""
+    import lensgen
+    out = []
+    for fs in ([0.0, 1.0], [0.0, 0.5, 1.0], [0.0, 0.3, 0.6, 1.0]):
+        o = paraboloid(fields=fs)
+        out.append((f'paraboloid-{len(fs)}f', o, o.fields.get_field_coords(), True))
+    o = paraboloid(fields=[0.0, 0.7, 1.2], conic=0.0, fno=4.0, defocus=0.05)
+    out.append(('spherical-mirror-3f', o, o.fields.get_field_coords(), False))
+    o = paraboloid(fields=[0.0, 1.0], conic=0.0, fno=100.0 / 30.0, defocus=0.1, clip=9.0)
+    out.append(('spherical-mirror-clipped-2f', o, o.fields.get_field_coords(), False))
+    lr = random.Random(ctx.seed + 207)
+    tries = 0
+    want = ctx.n(4, 24)
+    while len(out) < 5 + want and tries < 8 * want:
+        tries += 1
+        spec = lensgen.simple_spec(lr, n=lr.choice([1, 2, 3, 4]))
+        nf = lr.choice([2, 3, 4])
+        mx = lr.uniform(1.0, 5.0)
+        spec['fields'] = [[mx * j / (nf - 1), 0.0, 0.0, 0.0] for j in range(nf)]
+        try:
+            o = lensgen.build(spec)
+            out.append((f'gen-{nf}f-{tries}', o, o.fields.get_field_coords(), False))
+        except Exception:     # noqa
+            continue
+    return out
+
+
+def check_multifield(ctx):
+    """FFTMTF and GeometricMTF constructed with 2, 3 and 4 fields at once (FFTPSF takes one field: one object per field):
+    every returned curve against the independent computation for its own field, against the single-field object, and -- small
+    grids -- against the Coq model evaluated on the PSF of an independently built FFTPSF of that field"""
+    _quiet()
+    from optiland.psf import FFTPSF
+    from optiland.mtf import FFTMTF, GeometricMTF
+    dis, hist, samples = [], {}, []
+    ncurves = 0
+    lines, lmeta = [], []
+    for name, o, fields, stig in multifield_lenses(ctx):
+        lam = float(o.primary_wavelength)
+        nf = len(fields)
+        fam = name.split('-')[0]
+        try:
+            ws = oracle_fft_fields(o, fields, lam, 16, 32, name, stigmatic_first=stig)
+            hist[f'FFTMTF/{nf}-fields/{fam}'] = hist.get(f'FFTMTF/{nf}-fields/{fam}', 0) + 1
+            ncurves += 2 * nf
+            dis += [dict(w, violates_property=True) for w in ws]
+        except Exception as e:     # noqa
+            ctx.notes.append(f'multifield: FFTMTF on {name} raised {type(e).__name__}: {str(e)[:60]}')
+        for scale in (True, False):
+            try:
+                ws = oracle_geo_fields(o, fields, lam, name, scale=scale)
+                hist[f'GeometricMTF/{nf}-fields/{fam}'] = hist.get(f'GeometricMTF/{nf}-fields/{fam}', 0) + 1
+                ncurves += 2 * nf
+                dis += [dict(w, violates_property=True) for w in ws]
+            except Exception as e:     # noqa
+                ctx.notes.append(f'multifield: GeometricMTF on {name} raised {type(e).__name__}: {str(e)[:60]}')
+        # Coq model on a small grid: curve k of the multi-field object against mtf_tan/mtf_sag of FFTPSF(field k).psf
+        if fam in ('paraboloid', 'spherical'):
+            try:
+                m = FFTMTF(o, fields=list(fields), wavelength=lam, num_rays=6, grid_size=8)
+                for k, f in enumerate(fields):
+                    p = FFTPSF(o, f, lam, num_rays=6, grid_size=8)
+                    if not np.all(np.isfinite(p.psf)):
+                        continue
+                    lines.append(f'close_list {fh(TOL)} (mtf_tan (O:=FOps) 8%nat {fl2(p.psf)}) {fl(m.mtf[k][0])}')
+                    lines.append(f'close_list {fh(TOL)} (mtf_sag (O:=FOps) 8%nat {fl2(p.psf)}) {fl(m.mtf[k][1])}')
+                    lmeta += [(name, k, 'tangential'), (name, k, 'sagittal')]
+                hist[f'FFTMTF-vs-Coq-model/{nf}-fields'] = hist.get(f'FFTMTF-vs-Coq-model/{nf}-fields', 0) + 1
+            except Exception as e:     # noqa
+                ctx.notes.append(f'multifield: small-grid FFTMTF on {name} raised {type(e).__name__}')
+        if not samples:
+            samples.append({'lens': name, 'fields': [list(map(float, f)) for f in fields], 'num_rays': 16, 'grid_size': 32})
+    if lines:
+        chunk = 8
+        bodies = ['Eval vm_compute in (report [\n' + ';\n'.join(lines[s_:s_ + chunk]) + '\n]).\n' for s_ in range(0, len(lines), chunk)]
+        res = vlib.run_cases('c11mf', 'From OV Require Import Model.M_C11.', bodies)
+        for bi, rr in enumerate(res):
+            if rr[0] == 'error':
+                return {'name': 'multi_field', 'n': 0, 'error': rr[1]}
+            for i in rr[2]:
+                nm_, k, cvn = lmeta[bi * chunk + i]
+                dis.append({'kind': 'multi-field-mtf', 'site': 'FFTMTF._generate_mtf_data', 'lens': nm_, 'field_index': k, 'curve': cvn,
+                            'num_rays': 6, 'grid_size': 8, 'what': 'curve k of the multi-field FFTMTF differs from the Coq model of the MTF '
+                            'of FFTPSF(field k).psf', 'violates_property': True})
+        ncurves += len(lines)
+    # a documented constructor argument: numeric max_freq
+    try:
+        GeometricMTF(paraboloid(), fields=[(0.0, 0.0)], num_rays=6, num_points=4, max_freq=50.0)
+    except AttributeError as e:
+        dis.append({'kind': 'geo-mtf-max-freq-arg', 'site': 'GeometricMTF.__init__', 'python_error': str(e)[:100], 'max_freq': 50.0,
+                    'violates_property': True})
+    # one witness per (kind, site, finding-relevant flags) is enough
+    seen, short = set(), []
+    for d in dis:
+        key = (d['kind'], d.get('site'), d.get('equals_unweighted_line_spread'), d.get('zero_intensity_rays', 0) > 0)
+        if key not in seen:
+            seen.add(key)
+            short.append(d)
+    ctx.c11_multifield = short
+    return {'name': 'multi_field', 'n': ncurves, 'nontrivial': ncurves, 'histogram': hist, 'disagreements': short, 'samples': samples,
+            'note': 'kinds seen: ' + ', '.join(sorted({d['kind'] for d in short}))}
+
+
 def check_oracle(ctx):
     """the property stated directly on the real implementation (same sweep as search()); every witness is a
     confirmed violation -- listed findings are recognised by the runner, anything else alarms"""
@@ -704,6 +931,7 @@ def system_checks(ctx):
     psfs = r.pop('_psfs', [])
     yield r
     yield check_oracle(ctx)
+    yield check_multifield(ctx)
     yield check_mtf_pipeline(ctx, psfs)
     yield check_freq_axis(ctx)
     yield check_difflim(ctx)
@@ -868,6 +1096,12 @@ def search(ctx, broken, disagreements):
         add([d for d in res.get('disagreements', []) if d.get('violates_property')])
     except Exception as e:     # noqa
         ctx.notes.append(f'search: cutoff raised {type(e).__name__}')
+    if broken or disagreements:      # called by the runner (check_oracle calls with empty lists and runs check_multifield itself)
+        try:
+            res = check_multifield(ctx)
+            add([d for d in res.get('disagreements', []) if d.get('violates_property')])
+        except Exception as e:     # noqa
+            ctx.notes.append(f'search: multi-field sweep raised {type(e).__name__}')
     return list(found.values()) or None
 
 
@@ -893,6 +1127,13 @@ def matches_finding(w, f):
     if k == 'view-axis-length':
         g = w.get('grid_size', 0)
         return w.get('site') == m['site'] and g % 2 == 1 and w.get('axis_len') == g // 2 and w.get('curve_len') == g - g // 2
+    if k == 'geo-mtf-vs-line-spread':
+        # only the deviation that is EXACTLY "intensity ignored": the curve is the transform of the unweighted line spread and
+        # the traced rays do not all carry the same intensity
+        return w.get('site') == m['site'] and bool(w.get('equals_unweighted_line_spread')) and \
+            (w.get('zero_intensity_rays', 0) > 0 or w.get('uniform_intensity') is False)
+    if k == 'geo-mtf-max-freq-arg':
+        return w.get('site') == m['site'] and "no attribute 'max_freq'" in str(w.get('python_error', ''))
     return False
 
 
@@ -922,6 +1163,17 @@ def replay_finding(ctx, f):
     if k == 'view-axis-length':
         ws = oracle_lens(paraboloid(), rp.get('num_rays', 17), rp.get('grid_size', 33), perfect=True)
         return any(matches_finding(w, f) for w in ws)
+    if k == 'geo-mtf-vs-line-spread':
+        o = paraboloid(fields=[0.0, 1.0], conic=0.0, fno=100.0 / 30.0, defocus=0.1, clip=rp.get('clip_radius', 9.0))
+        ws = oracle_geo_fields(o, [o.fields.get_field_coords()[-1]], 0.55, 'spherical-mirror-clipped', scale=False)
+        return any(matches_finding(w, f) for w in ws)
+    if k == 'geo-mtf-max-freq-arg':
+        from optiland.mtf import GeometricMTF
+        try:
+            GeometricMTF(paraboloid(), fields=[(0.0, 0.0)], num_rays=6, num_points=4, max_freq=rp.get('max_freq', 50.0))
+            return False
+        except AttributeError as e:
+            return "no attribute 'max_freq'" in str(e)
     if k == 'cutoff-fno':
         from optiland.mtf import GeometricMTF, FFTMTF
         o = finite_singlet()
